@@ -317,6 +317,30 @@ def pair_walks(via):
     return ws
 
 
+def hold_walks(via, rnd, n):
+    """Forced schedule 'a registration is inside the critical section of the code's condition variable when the request
+    arrives': waiters parked on c, then a race step in which the harness itself holds the lock of conds[c] (a registrant
+    suspended between Lock and the unlock inside sync.Cond.Wait) while requests with c (and sometimes another code) arrive and
+    further registrations are in flight; the lock is let go a few ms later.  Everybody parked before must be released by
+    these requests (C20_Step), however the implementation orders itself behind the lock."""
+    ws = []
+    codes = [0, 11, 17, 31, 34, WAITCODE, 36, 39] + [rnd.randrange(TABLE) for _ in range(max(0, n - 8))]
+    for i, c in enumerate(codes[:n]):
+        if via and c == WAITCODE:
+            c = 36          # under ServeAgent a racing wait frame is itself a request with code 35
+        d = (c + 7) % TABLE
+        npark = 1 + i % 3
+        st = [{"op": "reg", "ws": ["w%d" % (j + 1) for j in range(npark)], "wc": [c] * npark, "cs": []},
+              {"op": "reg", "ws": ["w4"], "wc": [d], "cs": []}]
+        racers = ["w5", "w6"][:1 + i % 2]
+        st.append({"op": "race", "ws": racers, "wc": [c] * len(racers), "cs": [c] if i % 4 else sorted([c, (c + 1) % TABLE]),
+                   "dl": ["single", "pipelined", "fragmented"][i % 3], "hold": True})
+        st.append({"op": "request", "ws": [], "wc": [], "cs": [c]})
+        st.append({"op": "request", "ws": [], "wc": [], "cs": [d]})
+        ws.append({"id": "k%d" % i, "steps": st})
+    return ws
+
+
 def random_walks(via, n, rnd, maxlen):
     """Direction B: random schedules, up to 8 concurrently parked waiters on the same and on different codes, batches of
     registrations, batches of requests on several connections, registrations racing with requests."""
@@ -445,6 +469,7 @@ def execute(prop, tier, bins, plans_by_via, expect, verdict, drift, label, par, 
         for k in ("walks", "steps", "noverdict", "slow", "panics", "skipped", "leaked", "aborted"):
             stats[k] += summ.get(k, 0)
         stats["max_parked"] = max(stats["max_parked"], summ.get("max_parked", 0))
+        stats["held"] = stats.get("held", 0) + summ.get("held", 0)
         stats["observer"]["serve" if v else "direct"] = summ.get("observer", "?")
         for k, n in (summ.get("classes") or {}).items():
             stats["classes"][k] = stats["classes"].get(k, 0) + n
@@ -579,6 +604,7 @@ def run(prop, tier):
         plans[via] += code_walks(via)
         plans[via] += history_walks(via, tier)
         plans[via] += pair_walks(via)
+        plans[via] += hold_walks(via, rnd, 16 if tier == "quick" else 64)
         plans[via] += random_walks(via, nrand, rnd, 12 if tier == "quick" else 24)
         rnd.shuffle(plans[via])
     log("[plan] %d tours (%d LTS edges not planned), %d orderings, 2x256 code walks, 2x%d random schedules" % (len(tw), left, nord, nrand))
@@ -614,7 +640,7 @@ def run(prop, tier):
            "observer": stats["observer"],
            "timing_observer_walks_executed_again": stats["reexecuted_timing_walks"],
            "timing_observer_rejections_not_confirmed": stats["unconfirmed_timing_rejections"],
-           "max_concurrently_parked": stats["max_parked"], "slow_returns": stats["slow"], "panics_observed": stats["panics"],
+           "max_concurrently_parked": stats["max_parked"], "condition_locks_held_across_requests": stats.get("held", 0), "slow_returns": stats["slow"], "panics_observed": stats["panics"],
            "steps_skipped_by_the_8_waiter_cap": stats["skipped"], "goroutines_left_parked": stats["leaked"],
            "walks_without_observation": stats["noverdict"], "spec_drift": len(drift), "zero_coverage_actions": vacuous,
            "model_cfgs": [c for c, _ in MC[tier]], "trace_validation_wall_s": round(stats["tv_wall"], 1)}
